@@ -15,6 +15,10 @@ use std::sync::Mutex;
 use std::time::{Duration, Instant};
 use vrl::value::{ObjectMap, Value};
 
+/// functions that reach for the network (excluded everywhere)
+pub const NETWORK: &[&str] = &["http_request", "dns_lookup", "reverse_dns"];
+
+/// nondeterministic / environment-dependent functions: excluded where a result is compared with another run
 pub const EXCLUDED: &[&str] = &[
     "http_request", "dns_lookup", "reverse_dns", "get_hostname", "get_env_var", "now", "random_bool", "random_bytes",
     "random_float", "random_int", "uuid_v4", "uuid_v7", "uuid_from_friendly_id", "log", "get_secret", "set_secret",
@@ -317,9 +321,9 @@ pub fn generate(sink: &mut Sink, rng: &mut Rng, n: u64, op: &str) {
     let per_fn = (n / fns.len() as u64).max(2);
     for f in &fns {
         let name = f.identifier();
-        // the no-panic sweep (C04) does not care about nondeterminism: only the functions that reach for the
-        // network stay out of it
-        let skip = if op == "o.c04.fn" { ["http_request", "dns_lookup", "reverse_dns"].contains(&name) } else { EXCLUDED.contains(&name) };
+        // the no-panic and termination sweeps (C04, C05) do not care about nondeterminism: only the functions
+        // that reach for the network stay out of them
+        let skip = if op == "o.c04.fn" || op == "o.c05.fn" { NETWORK.contains(&name) } else { EXCLUDED.contains(&name) };
         if skip {
             sink.count("sweep:excluded_functions");
             continue;
